@@ -44,3 +44,66 @@ PROPS["C02"] = {
     "level_text": "Generated-input search over projection-heavy expressions and documents with empty, heterogeneous, null-containing and nested arrays/objects; the library result must equal the reference evaluator's result modulo the unspecified order of object members (multiset equality inside bags, exact elsewhere), including error presence. Exploration: infinite input space.",
     "level_note": LEVEL_NOTE,
 }
+
+
+def prop(pid, quick, thorough, rule, technique, level_text, min_nontrivial=100, assumptions=None, **kw):
+    d = {"quick": quick, "thorough": thorough, "rule": rule, "technique": technique, "level_text": level_text,
+         "level_note": LEVEL_NOTE, "assumptions": (assumptions or []) + COMMON_ASSUMPTIONS, "min_nontrivial": min_nontrivial}
+    d.update(kw)
+    PROPS[pid] = d
+
+prop("C03",
+     quick=[plain("TestC03Enum", env={"VERIF_ENUM_LEN": 5}, shards=8), rapid("TestC03Random", 15000)],
+     thorough=[plain("TestC03Enum", env={"VERIF_ENUM_LEN": 6}, shards=16), rapid("TestC03Random", 100000, shards=16)],
+     rule="(a) every sentence of the grammar up to the token-length bound (enumerated over a 25-symbol token alphabet, decided by the CFG recogniser) and (b) random CFG sentences up to ~45 tokens: the library's AST (verif hook dump) must equal the reference Pratt parse built from the stated precedence rules; the minimal, fully parenthesised and decorated (redundant parentheses + random whitespace) spellings must all have the same library AST; and all spellings must evaluate like the reference on a document. Non-trivial: the fully parenthesised spelling needs at least one parenthesis pair that the minimal spelling omits (i.e. grouping is decided by precedence/associativity/projection scope). Class histogram = adjacent operator-kind pairs covered.",
+     technique="exhaustive small-scope enumeration + random CFG sentences; structural differential vs reference Pratt parser, metamorphic parenthesisation/whitespace relation, semantic cross-check",
+     level_text="Equal parse implies equal result on every document, so the 'for all documents' quantifier is discharged structurally through the AST dump hook; the metamorphic layer (minimal vs explicit parentheses) needs no reference parser. Exhaustive up to the length bound (quick 5 tokens, thorough 6), random beyond it.",
+     min_nontrivial=500)
+
+prop("C04",
+     quick=[plain("TestC04Enum", env={"VERIF_ENUM_LEN": 4}, shards=4), plain("TestC04Variants", env={"VERIF_ENUM_LEN": 4}), plain("TestC04LexBroken"), rapid("TestC04Random", 30000)],
+     thorough=[plain("TestC04Enum", env={"VERIF_ENUM_LEN": 6}, shards=16, timeout="3h"), plain("TestC04Variants", env={"VERIF_ENUM_LEN": 5}, shards=8), plain("TestC04LexBroken"), rapid("TestC04Random", 150000, shards=16)],
+     rule="(a) every token sequence over the 25-symbol token alphabet up to the length bound, rendered with single spaces: Compile must accept it iff the CFG recogniser (ABNF transcribed, no precedence) derives it; (b) 4 lexeme/whitespace variants of every sentence; (c) lexically broken texts in 5 contexts; (d) random CFG sentences of 6-45 tokens and their 1-2 token-edit mutants (delete/insert/duplicate/swap/replace/drop-separator), membership decided by the recogniser. Accepted sentences are additionally searched on null and on a fixed document and must agree with the reference evaluator (no 'compiled into something broken'). Non-trivial: a sentence, or a near-miss non-sentence (one deletion or replacement away from a sentence, by lookup in the enumerated sentence sets; by construction for mutants). Accepted non-sentences explained by the open findings KF-P6/KF-P7 are counted under excluded_known.",
+     technique="language-equality differential: exhaustive token-sequence enumeration and random sentences/mutants vs a CFG recogniser transcribed from the ABNF",
+     level_text="Both directions (accepts non-sentence, rejects sentence) are violations. Exhaustive to the bound (quick: all 406,900 sequences of <= 4 tokens; thorough: all 254 M sequences of <= 6 tokens), random with separator-focused mutants beyond it.",
+     min_nontrivial=1000)
+
+prop("C07",
+     quick=[plain("TestC07Exhaustive"), rapid("TestC07Random", 20000)],
+     thorough=[plain("TestC07Exhaustive"), rapid("TestC07Random", 100000, shards=16)],
+     rule="exhaustive: 24-value universe (every type, emptiness, nesting) squared x 8 binary operators x 3 carriers (literals, document fields, filter condition), unary not, short-circuit with an erroring right operand, filters over the universe; random: nestings of || && ! and the six comparators (depth <= 6, also inside filters) on G-doc documents. Oracle: reference definitions of truthiness, operand-value-returning ||/&&, deep equality, numbers-only ordering. Non-trivial: every exhaustive cell (distinct by carrier, operator, operands); random cases with >= 2 evaluated operators.",
+     technique="exhaustive truth tables over a value universe + random operator nestings, differential vs reference evaluator",
+     level_text="The operand universe is enumerated completely for every operator and carrier; nestings are explored randomly.",
+     min_nontrivial=5000)
+
+prop("C08",
+     quick=[plain("TestC08Golden", shards=4), plain("TestC08NonArray"), rapid("TestC08Random", 20000)],
+     thorough=[plain("TestC08Golden", shards=8), plain("TestC08NonArray"), rapid("TestC08Random", 50000, shards=16)],
+     rule="every (length, start, stop, step) of the committed CPython golden file (lengths 0..8 x {absent} U [-len-2, len+2] cubed = 34,776 triples incl. step 0, and the 15^3 grid of boundary values up to +/-(2^63-1) and -2^63 for lengths 0..4) on six carriers (root array, field, after a projection, with a right-hand side, []float64 and []string typed slices); all non-array values x parameter grid incl. step 0; random lengths <= 200 with random 64-bit parameters against the reference slice model. Expected element lists come from real Python (golden) / big-integer re-implementation of PySlice_AdjustIndices. Non-trivial: all (distinct by carrier, length, parameters); classes: non-empty, empty, step-0 error, non-array.",
+     technique="differential vs CPython slicing (golden file generated by the real Python) and a big-integer reference model; exhaustive window + boundary grid + random",
+     level_text="The window and the boundary grid are enumerated completely; larger lengths/parameters randomly.",
+     min_nontrivial=10000)
+
+prop("C09",
+     quick=[plain("TestC09Universe"), rapid("TestC09ToNumber", 20000), rapid("TestC09Random", 20000)],
+     thorough=[plain("TestC09Universe"), rapid("TestC09ToNumber", 200000, shards=4), rapid("TestC09Random", 100000, shards=16)],
+     rule="(a) each of the 26 functions on every well-typed tuple over a typed universe (numbers incl. -0/1e15, strings incl. multi-byte/astral/number-like/non-finite spellings, number/string/object/mixed arrays with duplicates and ties, objects with colliding keys, 11 expression references); (b) to_number on strings over number-ish characters: finite-or-null, exact for JSON numbers, null for clearly non-numeric; (c) random calls and expressions with calls on G-doc documents and on large arrays (<= 120 objects with many key ties, multi-byte strings). Oracle: reference function library (stable insertion sort, first extremal element, code-point string handling, later-wins merge, to_string as 'any JSON text decoding to the argument'), bag-aware for keys/values. Non-trivial: the reference evaluation succeeded and at least one function call was evaluated; per-function success counts are in classes (universe-success.<name>; zero for any function is a harness error).",
+     technique="differential vs an independent reference function library: exhaustive typed universe per function + random nested calls",
+     level_text="Exact equality with the specification's value, hence ordering, permutation and stability of sort_by, first-extremal of max_by/min_by etc. are checked in both directions at once.",
+     min_nontrivial=3000)
+
+prop("C10",
+     quick=[plain("TestC10Matrix", env={"VERIF_C10_ARITY": 3}, shards=4), plain("TestC10ByExprKeys"), rapid("TestC10Random", 20000)],
+     thorough=[plain("TestC10Matrix", env={"VERIF_C10_ARITY": 4}, shards=16), plain("TestC10ByExprKeys"), rapid("TestC10Random", 50000, shards=16)],
+     rule="exhaustive matrix: (26 built-ins + 5 unknown names) x arity 0..3 (thorough 0..4) x 13 argument classes per position (null, boolean, number, string, empty/number/string/mixed/nested/object arrays, empty/non-empty object, expression reference), arguments as literals or document fields; by-expression functions x arrays of length 0..3 x 7 key kinds per element incl. an erroring key; random ill-typed calls nested in expressions. Oracle: signature table from the specification: ill-typed / wrong arity / unknown => error and nil value, never a panic; well-typed => no error (converse). Non-trivial: the reference evaluation raised a call error or an invalid by-expression key.",
+     technique="exhaustive function x arity x argument-class matrix against a reference signature table (error-presence oracle in both directions), plus random nestings",
+     level_text="The full matrix is enumerated; error presence must match the specification in both directions.",
+     min_nontrivial=10000)
+
+prop("C11",
+     quick=[plain("TestC11Exhaustive"), rapid("TestC11Random", 20000)],
+     thorough=[plain("TestC11Exhaustive", env={"VERIF_C11_PAIRS": 1}, shards=8), rapid("TestC11Random", 100000, shards=16)],
+     rule="10 erroring seeds (invalid type, arity, unknown function, zero step, inconsistent/bad key, variadic type, expref as value, nested) x 40 strict context constructors (every operator side, projection kind incl. left operands and right-hand sides, filter condition, function argument positions, expression-reference bodies, multi-select members, pipes) exhaustively (thorough: all ordered pairs), 11 non-strict controls (short-circuit, empty/non-matching projections, multi-select on null), and random stacks of depth 1..6 incl. document-dependent seeds. Oracle: metamorphic (Search(E) errors => Search(C[E]) errors and returns nil) for stacks that guarantee evaluation, and differential vs the reference evaluator for all. Non-trivial: a strict stack whose seed errors.",
+     technique="metamorphic error-preservation under strict evaluation contexts + differential vs reference evaluator; exhaustive singles/pairs, random stacks",
+     level_text="All single contexts (thorough: pairs) are enumerated; deeper nestings randomly.",
+     min_nontrivial=300)
